@@ -5,5 +5,5 @@ D=$1; ID=$2; CHECKS=$3
 SKIP_CHECKS=1 /verif/seeded_eval.sh $D $ID "$CHECKS"
 W=/tmp/chk_$ID; rm -rf $W; git -C /repo worktree prune; git -C /repo worktree add -q --detach $W HEAD || exit 1
 mkdir -p /tmp/chkv_$ID/bin /tmp/chkv_$ID/evidence; cp /verif/known_findings.json /tmp/chkv_$ID/
-(cd $W && git apply $D/patch.diff) && NFS_REPO=$W NFS_VERIF=/tmp/chkv_$ID NFS_NO_SELFTEST=1 /verif/bin/nfsverif check $CHECKS 2>&1 | grep -aE "^(VIOLATED|UNDECIDED|KNOWN|C[0-9]+ tier)" | cut -c1-260
+(cd $W && git apply $D/patch.diff) && NFS_REPO=$W NFS_VERIF=/tmp/chkv_$ID NFS_NO_SELFTEST=1 ${NFS_BIN:-/verif/bin/nfsverif} check $CHECKS 2>&1 | grep -aE "^(VIOLATED|UNDECIDED|KNOWN|C[0-9]+ tier)" | cut -c1-260
 git -C /repo worktree remove --force $W; rm -rf /tmp/chkv_$ID
